@@ -172,12 +172,12 @@ def run(ctx):
     # assemble_exe: truncate, append in order, NUL last
     Ta = M.Terms(ae)
     sto = ("param", 1, ae.local_name(1))
-    tr = ae.calls_to(lambda f: M.callee_str(f) == "std::vec::Vec::<T, A>::truncate")
+    tr = ae.calls_to(lambda f: M.callee_str(f) in ("std::vec::Vec::<T, A>::truncate", "std::vec::Vec::<T, A>::clear"))
     al = M.sccs(ae)
     aloop = al[0] if len(al) == 1 else set()
     ext = ae.calls_to(lambda f: M.callee_str(f) == "std::vec::Vec::<T, A>::extend_from_slice")
     pu = ae.calls_to(lambda f: M.callee_str(f) == "std::vec::Vec::<T, A>::push")
-    ok = len(tr) == 1 and const_of(Ta.operand(tr[0][1]["args"][1])) == 0 and M.noref(Ta.operand(tr[0][1]["args"][0])) == sto and tr[0][0] not in aloop
+    ok = len(tr) == 1 and (M.callee_str(tr[0][1]["f"]).endswith("::clear") or const_of(Ta.operand(tr[0][1]["args"][1])) == 0) and M.noref(Ta.operand(tr[0][1]["args"][0])) == sto and tr[0][0] not in aloop
     ok = ok and len(ext) == 1 and ext[0][0] in aloop and all(dominated_by_blocks(ae, b, [tr[0][0]]) for b, _ in ext)
     ctx.ob("R15.3", "assemble.truncate-then-append", ok, ae.loc(0), "assemble_exe must clear the buffer first and append every component inside one loop")
     if len(ext) == 1:
